@@ -19,7 +19,7 @@ pub fn prop() -> Prop {
     Prop {
         id: "C34", title: "Timer interrupts follow the configured interval", level: "exploration",
         rule: "Phase 0: TimerDevices with exact counts n in 1..=1000 and ranges a..=b / a..b / (Excluded(a-1), Included(b)) / a.. (1 <= a; for a.. only the minimum is checked), random seeds, vectors and priorities are polled directly 2000-10000 times with random enable/disable toggles, io_reset and reset_remaining calls. Monitor over the poll history: \
-               (i) the number of enabled polls strictly between two consecutive interrupts (with no reset in between; a disabled timer is frozen, so polls made while it is disabled do not count) lies in the range (= n for an exact count); (ii) after enabling, io_reset or reset_remaining the first interrupt comes within max+1 enabled polls; \
+               (i) the number of polls strictly between two consecutive interrupts (with no reset in between) lies in the range; across a disable/enable pause the gap is accepted if either the enabled polls or all polls lie in the range lies in the range (= n for an exact count); (ii) after enabling, io_reset or reset_remaining the first interrupt comes within max+1 enabled polls; \
                (iii) no interrupt while disabled; (iv) two timers with the same seed and operation sequence produce identical fire sequences, vector and priority as configured (priority clamped to 7). \
                Phase 1: the same timer wrapped in a recording device inside a Simulator running an endless loop, with (in half of the cases) an earlier-registered device that raises external interrupts: the timer must be polled exactly once per step (also on steps aborted by an external interrupt), and the recorded poll/fire log must satisfy (i) and (ii); interrupt entries are counted from the machine state. \
                Phase 2: the timer shared through Arc<Mutex<_>> or Arc<RwLock<_>> (the library's ExternalDevice impls for both), enabled by a controller thread that in half of the cases dies holding the guard (lock poisoned but free): polled directly or inside a Simulator, it must fire and satisfy (i) and (ii). \
@@ -51,26 +51,30 @@ fn run(ctx: &mut Ctx) {
         let case = |hist: &Vec<String>| Json::obj().set("seed", seed).set("range", format!("{lo}..{}{hi}", if incl { "=" } else { "" })).set("vector", vect as u64).set("priority", prio as u64).set("recent_events", Json::Arr(hist.iter().rev().take(12).rev().map(|h| Json::from(h.as_str())).collect()));
         let mut hist: Vec<String> = vec![];
         let mut since_fire: Option<u64> = None;   // enabled polls since the last fire (None: no clean reference point)
+        let mut since_fire_all: u64 = 0;          // all polls since the last fire, including those made while disabled
+        let mut paused = false;                   // was the timer disabled at some point since the last fire?
         let mut since_arm: Option<u64> = None;    // enabled polls since enable/reset
         let mut fires = 0u64;
         let mut enabled = false;
         for i in 0..polls {
             // occasional operations
             match rng.below(if enabled { 400 } else { 6 }) {
-                0 => { enabled = !enabled; t.enabled = enabled; u.enabled = enabled; /* the countdown is frozen while disabled: only enabled polls count, across the pause */ since_arm = if enabled { Some(0) } else { None }; if !enabled && since_fire == Some(0) { ctx.count("pauses.right-after-an-interrupt"); } hist.push(format!("poll {i}: enabled = {enabled}")); }
+                0 => { enabled = !enabled; t.enabled = enabled; u.enabled = enabled; /* across a pause the gap is accepted if either the enabled polls or all polls lie in the range (the statement does not say whether a disabled timer keeps counting) */ paused = true; since_arm = if enabled { Some(0) } else { None }; if !enabled && since_fire == Some(0) { ctx.count("pauses.right-after-an-interrupt"); } hist.push(format!("poll {i}: enabled = {enabled}")); }
                 1 if enabled => { if rng.bool() { t.io_reset(); u.io_reset(); hist.push(format!("poll {i}: io_reset")); } else { t.reset_remaining(); u.reset_remaining(); hist.push(format!("poll {i}: reset_remaining")); } since_fire = None; since_arm = Some(0); }
                 _ => {}
             }
             let Some((a, b)) = ctx.no_panic("poll_interrupt", || case(&hist), || (t.poll_interrupt(), u.poll_interrupt())) else { return };
             if a.is_some() != b.is_some() { ctx.violation("same-seed-different-sequence", format!("poll {i}: one timer fired, its twin did not"), case(&hist)); return; }
+            since_fire_all += 1;
             if !enabled { if a.is_some() { ctx.violation("fires-while-disabled", format!("poll {i}: interrupt from a disabled timer"), case(&hist)); return; } continue; }
             match a {
                 Some(int) => {
                     hist.push(format!("poll {i}: fire"));
                     if int.priority() != Some(prio.min(7)) { ctx.violation("wrong-priority", format!("priority {:?}, configured {prio}", int.priority()), case(&hist)); return; }
-                    if let Some(g) = since_fire { if g < lo as u64 || g > max as u64 { ctx.violation(if exact { "gap-not-exact" } else if g < lo as u64 { "gap-below-range" } else { "gap-above-range" }, format!("{g} polls between consecutive interrupts, range {lo}..={max}"), case(&hist)); return; } ctx.count(if g == lo as u64 { "gaps.at-min" } else if g == max as u64 { "gaps.at-max" } else { "gaps.inside" }); }
+                    let g_all = since_fire_all - 1;
+                    if let Some(g) = since_fire { if (g < lo as u64 || g > max as u64) && !(paused && g_all >= lo as u64 && g_all <= max as u64) { ctx.violation(if exact { "gap-not-exact" } else if g < lo as u64 { "gap-below-range" } else { "gap-above-range" }, format!("{g} polls between consecutive interrupts, range {lo}..={max}"), case(&hist)); return; } ctx.count(if g == lo as u64 { "gaps.at-min" } else if g == max as u64 { "gaps.at-max" } else { "gaps.inside" }); }
                     if let Some(w) = since_arm { if w > max as u64 { ctx.violation("first-interrupt-too-late", format!("first interrupt {} polls after enable/reset, maximum {}", w + 1, max + 1), case(&hist)); return; } ctx.count("first-fire-after-arm"); }
-                    since_fire = Some(0); since_arm = None; fires += 1;
+                    since_fire = Some(0); since_arm = None; fires += 1; since_fire_all = 0; paused = false;
                 }
                 None => {
                     if let Some(g) = since_fire.as_mut() { *g += 1; if *g > max as u64 { ctx.violation("gap-above-range", format!("no interrupt for {g} polls after the previous one, range maximum {max}"), case(&hist)); return; } }
